@@ -536,6 +536,9 @@ func (ck *checker) one(plan []any, root, other map[string]any, origin string) {
 	}
 	if countCalls(plan) > 0 {
 		c.Distinct(planText, cs["root"])
+		if origin == "random" && c.WantSample() {
+			c.Sample(map[string]any{"plan": planText, "root": cs["root"], "outcome": o1.flag(), "result": clip(o1.root), "reference_undefined": ref.Undefined, "reference_error": ref.Err})
+		}
 	}
 }
 
